@@ -240,6 +240,11 @@ func c16(r *engine.Report, p *engine.Program) {
 			okp, why := errorPropagates(su, ci.(*ssa.Call))
 			r.Check("R2-transport", "sendUnreachable: error of sendMessage", ci.Pos(), okp, why, why)
 		}
+		okP, whyP := noticeAlwaysPublished(p, hu)
+		r.Check("R2-transport", "handleUnreachable: every decoded notice is published", hu.Pos(), okP, "assuming the decode succeeded, no return of handleUnreachable is reachable without Publish", whyP)
+		okB, whyB := brokerLossless(p)
+		r.Check("R2-transport", "utils.Broker: every published message is delivered to every subscriber (blocking hand-over, unbuffered subscriptions)", token.NoPos, okB,
+			"the per-subscriber send in Broker.start is a blocking select with the broker context as its only other arm; Subscribe makes unbuffered channels", whyB)
 		okA, whyA := noticeAlwaysSent(p, su)
 		r.Check("R2-transport", "sendUnreachable: every notice is transmitted", su.Pos(), okA, "assuming the encoding succeeded, no return of sendUnreachable is reachable without sendMessage", whyA)
 		r.Check("R2-transport", "sendUnreachable: from/to service 'unreach', to the given node", su.Pos(), ok, "notices use the reserved service on both ends", "notices are not sent from/to the reserved 'unreach' service of the target node")
